@@ -692,7 +692,7 @@ def check_case(op, inp):
             return bad('text_roundtrip', str(a), obs)
         try:
             b = _quiet_call(AnalysisPeriod.from_dict, json.loads(json.dumps(a.to_dict())))
-            ok, obs = (b == a and list(b.moys[:5]) == list(a.moys[:5])), str(b)
+            ok, obs = (b == a and b.is_leap_year == a.is_leap_year and b.timestep == a.timestep), str(b)
         except Exception as e:
             ok, obs = False, 'raises %s' % type(e).__name__
         if not ok:
